@@ -85,6 +85,27 @@ pub fn model(c: &OpCase, inp: &Inputs) -> Vec<Poly> {
                 .collect()
         }
         "dft_zero" => (0..c.rs).map(|_| zero(n)).collect(),
+        "dft_chain" => {
+            let mut cur: Vec<Poly> = (0..c.rs).map(r0).collect();
+            let mut code = c.p as usize;
+            for _ in 0..c.q as usize {
+                let step = code % 5;
+                code /= 5;
+                cur = cur
+                    .iter()
+                    .enumerate()
+                    .map(|(j, r)| match step {
+                        0 => add(r, &a(j)),
+                        1 => sub(r, &a(j)),
+                        // sub_negate_assign: res = operand - res on the limbs the operand has, res = -res beyond
+                        2 => sub(&a(j), r),
+                        3 => sub(&b(j), r),
+                        _ => negacyclic_mul_i128(&sc, r),
+                    })
+                    .collect();
+            }
+            cur
+        }
         "idft_apply" | "idft_apply_tmpa" => (0..c.rs).map(a).collect(),
         "idft_apply_consume" => (0..c.a_s).map(a).collect(),
         "svp_apply_dft" | "svp_apply_dft_to_dft" => {
@@ -176,6 +197,8 @@ pub fn model(c: &OpCase, inp: &Inputs) -> Vec<Poly> {
 /// number of (n-term) products accumulated into one output coefficient, for the magnitude domain
 fn terms(c: &OpCase) -> usize {
     match c.op.as_str() {
+        // worst case over the chain: every step a multiplication by a ternary polynomial (factor n) or a doubling
+        "dft_chain" => (c.n.max(2)).pow(c.q as u32),
         "vmp_apply_dft" | "vmp_apply_dft_to_dft" => c.a_s.min(c.rows) * c.cin,
         "cnv_apply_dft" | "cnv_self_apply_dft" | "cnv_by_const_apply" => c.a_s.min(c.bs.max(1)).max(1),
         "cnv_pairwise_apply_dft" => 4 * c.a_s.min(c.bs).max(1),
@@ -192,6 +215,9 @@ pub fn admissible<B: Bk>(c: &OpCase) -> bool {
         _ => (c.b, c.b),
     };
     let n_eff = if c.op.starts_with("dft_") || c.op.starts_with("idft_") { 1 } else { c.n };
+    if c.op == "dft_chain" {
+        return ops::in_domain(B::FAMILY, 1, terms(c), c.b + 1, 1);
+    }
     ops::in_domain(B::FAMILY, n_eff, terms(c), bl, br)
 }
 
@@ -354,6 +380,26 @@ pub fn cases_for(op: &str, n: usize, b: usize, tier: Tier) -> Vec<OpCase> {
                 }
             }
         }
+        "dft_chain" => {
+            // every sequence of 1..=3 steps over the 5-letter alphabet {+=a, -=a, a-res, b-res, *=s}
+            for depth in 1..=3usize {
+                for code in 0..5usize.pow(depth as u32) {
+                    for (rs, a_s, bs) in [(1usize, 1usize, 1usize), (2, 2, 2), (3, 2, 1), (2, 3, 3)] {
+                        for &(cols, rc, ac, bc) in &colsets[..3] {
+                            for &val in &vals {
+                                if val == 5 {
+                                    continue;
+                                }
+                                let mut c = base.clone();
+                                (c.rs, c.a_s, c.bs, c.p, c.q, c.cols, c.rc, c.ac, c.bc, c.val) =
+                                    (rs, a_s, bs, code as i64, depth as i64, cols, rc, ac, bc, val);
+                                out.push(c);
+                            }
+                        }
+                    }
+                }
+            }
+        }
         "svp_apply_dft" | "svp_apply_dft_to_dft" | "svp_apply_dft_to_dft_assign" => {
             for rs in 1..=smax {
                 for bs in 1..=smax {
@@ -426,6 +472,7 @@ pub fn all_ops() -> Vec<&'static str> {
     v.extend(ops::SVP_OPS);
     v.extend(ops::VMP_OPS);
     v.extend(ops::CNV_OPS);
+    v.extend(ops::CHAIN_OPS);
     v
 }
 
